@@ -45,10 +45,10 @@ def value_model(x):
     if isinstance(x, str):
         return ('ctor', V + 'String', (_fmt(x),))
     if isinstance(x, list):
-        return ('ctor', V + 'Array', (('struct', 'toml_edit::array::Array', {'values': VecObj([('ctor', I + 'Value', (value_model(y),)) for y in x]), 'trailing': _raw_empty(), 'trailing_comma': False,
+        return ('ctor', V + 'Array', (('struct', 'toml_edit::array::Array', {'values': VecObj([('ctor', I + 'None') if y is None else ('ctor', I + 'Value', (value_model(y),)) for y in x]), 'trailing': _raw_empty(), 'trailing_comma': False,
                                                                            'decor': _dec(), 'span': NONE_}),))
     if isinstance(x, tuple) and x[0] == 'IT':
-        return ('ctor', V + 'InlineTable', (('struct', 'toml_edit::inline_table::InlineTable', {'items': MapObj([(_key(k), ('ctor', I + 'Value', (value_model(v),))) for k, v in x[1].items()]),
+        return ('ctor', V + 'InlineTable', (('struct', 'toml_edit::inline_table::InlineTable', {'items': MapObj([(_key(k), ('ctor', I + 'None') if v is None else ('ctor', I + 'Value', (value_model(v),))) for k, v in x[1].items()]),
                                                                                                 'preamble': _raw_empty(), 'decor': _dec(), 'implicit': False, 'dotted': x[2], 'span': NONE_}),))
     raise ValueError(x)
 
@@ -80,9 +80,9 @@ def logical(x):
     if isinstance(x, tuple) and x[0] == 'AOT':
         return [logical(t) for t in x[1]]
     if isinstance(x, tuple) and x[0] == 'IT':
-        return {k: logical(v) for k, v in x[1].items()}
+        return {k: logical(v) for k, v in x[1].items() if v is not None}
     if isinstance(x, list):
-        return [logical(y) for y in x]
+        return [logical(y) for y in x if y is not None]
     return x
 
 
@@ -110,6 +110,8 @@ def documents():
     docs.append(('arrays of tables', T({'top': 1, 'aot': AOT(T({'a': 1}), T({}), T({'b': 2, 'sub': T({'c': 3}), 'inner': AOT(T({'d': 4}), T({'e': 5}))})), 'after': T({'z': 1})})))
     docs.append(('values after tables', T({'t': T({'a': 1}), 'late': 2, 'aot': AOT(T({'b': 1})), 'later': [1], 'u': T({'c': 1}), 'latest': IT({'k': 1})})))
     docs.append(('placeholders', T({'a': 1, 'ghost': None, 't': T({'ghost': None, 'b': 2}), 'aot': AOT(T({'ghost': None}))})))
+    docs.append(('placeholders inside values', T({'first': [None, 1, 2], 'middle': [1, None, 2], 'only': [None], 'last': [1, None], 'two': [None, None, 3, None, 4], 'it': IT({'ghost': None, 'y': 1}),
+                                                  'it2': IT({'x': 1, 'ghost': None}), 'nested': [[None, 1], IT({'g': None})]})))
     docs.append(('positions', T({'first': T({'a': 1}, pos=2), 'second': T({'b': 2}, pos=1), 'third': T({'c': 3}), 'aot': AOT(T({'d': 4}, pos=0), T({'e': 5}, pos=3))})))     # (positions say where a section is printed; the elements of one array keep their order)
     docs.append(('quoted table names', T({'a b': T({'c.d': T({'': T({'v': 1})})}), 'é': AOT(T({'k': 'v'}))})))
     docs.append(('empty document', T({})))
@@ -244,3 +246,69 @@ def r16_printed_pieces(rep, facts, rid='C06/R16'):
                 rep.bad(R, key, f'{key} printed on its own gives {text!r:.260}, which decodes to {got!r:.200} instead of {want!r:.200}', facts.loc(b))
             else:
                 rep.ok(R, key, f'{len(text)} bytes', facts.loc(b))
+
+
+def r17_conversions(rep, facts, rid='C06/R17'):
+    """inline <-> standard conversions, then printing: what was converted is still there wherever it is put"""
+    R = rep.rule(rid, 'a converted container still prints its content wherever it is placed: InlineTable::into_table (plain and dotted-key inline tables), Table::into_inline_table (plain, '
+                 'implicit and dotted tables) and Item::into_table / into_array_of_tables are evaluated on model containers, the result is placed as the document root, as an element of an '
+                 'array of tables, as a [table] and as a value, and the document is printed by evaluating Display for DocumentMut: the text must decode (Python\'s tomllib) to the content', floor=10)
+    d = facts.method('core::fmt::Display', 'toml_edit::document::DocumentMut', 'fmt')
+    if not d or not facts.has_body(d):
+        rep.incomplete(R, 'Display for DocumentMut', 'not found')
+        return
+    b = facts.body(d)
+    from .places import deref
+
+    def print_root(root_table):
+        doc = ('struct', 'toml_edit::document::DocumentMut', {'root': ('ctor', I + 'Table', (root_table,)), 'trailing': _raw_empty()})
+        it = PrintInterp(Evaluator(facts))
+        it.apply_fn(b, [doc, ('formatter',)])
+        return it.text()
+
+    def holder(items):
+        t = table_model(T({}))
+        t[2]['items'] = MapObj(items)
+        return t
+    content = {'a': 1, 'n': IT({'b': 'x'}), 'l': [1, 2]}
+    want = logical(T(content))
+    cases = []
+    for dotted in (False, True):
+        def conv_it(dotted=dotted):
+            it_ = deref(value_model(IT(content, dotted=dotted))[2][0])
+            return PrintInterp(Evaluator(facts)).apply_fn(facts.body('toml_edit::inline_table::InlineTable::into_table'), [it_])
+        lab = 'a dotted-key inline table' if dotted else 'an inline table'
+        cases.append((f'{lab} -> into_table, as the document root', conv_it, lambda t: print_root(t), want))
+        cases.append((f'{lab} -> into_table, as a [table]', conv_it, lambda t: print_root(holder([(_key('t'), ('ctor', I + 'Table', (t,)))])), {'t': want}))
+        cases.append((f'{lab} -> into_table, as an element of an array of tables', conv_it,
+                      lambda t: print_root(holder([(_key('aot'), ('ctor', I + 'ArrayOfTables', (('struct', 'toml_edit::array_of_tables::ArrayOfTables', {'values': VecObj([('ctor', I + 'Table', (t,))]), 'span': NONE_}),)))])),
+                      {'aot': [want]}))
+    for implicit, dotted in ((False, False), (True, False), (True, True)):
+        def conv_t(implicit=implicit, dotted=dotted):
+            t_ = table_model(T(content, implicit=implicit, dotted=dotted))
+            return PrintInterp(Evaluator(facts)).apply_fn(facts.body('toml_edit::table::Table::into_inline_table'), [t_])
+        lab = ('a dotted-key table' if dotted else 'a header-implied table' if implicit else 'a table')
+        cases.append((f'{lab} -> into_inline_table, as a value', conv_t, lambda v: print_root(holder([(_key('v'), ('ctor', I + 'Value', (('ctor', V + 'InlineTable', (v,)),)))])), {'v': want}))
+        cases.append((f'{lab} -> into_inline_table, as an array element', conv_t,
+                      lambda v: print_root(holder([(_key('v'), ('ctor', I + 'Value', (value_model([1])[0:2] + ((deref(value_model([1])[2][0])),),)))])) if False else
+                      print_root(holder([(_key('v'), ('ctor', I + 'Value', (_array_of([('ctor', V + 'InlineTable', (v,))]),)))])), {'v': [want]}))
+    for name, conv, place, expect in cases:
+        try:
+            text = place(deref(conv()))
+        except EvalPanic as ex:
+            rep.bad(R, name, f'{name}: the conversion or the printer panics: {ex}', facts.loc(b))
+            continue
+        except (Unanalysable, TypeError, KeyError, IndexError, AttributeError, ValueError) as ex:
+            rep.incomplete(R, name, f'cannot evaluate `{name}`: {type(ex).__name__}: {ex}', facts.loc(b))
+            continue
+        try:
+            got = tomllib.loads(text)
+        except tomllib.TOMLDecodeError as ex:
+            rep.bad(R, name, f'{name}: the document prints as text that is not valid TOML ({ex}): {text!r:.300}', facts.loc(b))
+            continue
+        rep.check(R, name, got == expect, f'{len(text)} bytes, decodes to the content', f'{name}: the document prints as {text!r:.260}, which decodes to {got!r:.200} instead of {expect!r:.200}', facts.loc(b))
+
+
+def _array_of(values):
+    return ('ctor', V + 'Array', (('struct', 'toml_edit::array::Array', {'values': VecObj([('ctor', I + 'Value', (v,)) for v in values]), 'trailing': _raw_empty(), 'trailing_comma': False,
+                                                                       'decor': _dec(), 'span': NONE_}),))
